@@ -86,12 +86,12 @@ class TrieStream:
             try:
                 if w[0] == "set":
                     m[unhx(w[1]).decode()] = int(w[2])
-                    obs.append("ok")
+                    obs.append("ok | " + self.dump(m))
                 elif w[0] == "get":
-                    obs.append(f"some {m[unhx(w[1]).decode()]}")
+                    obs.append(f"some {m[unhx(w[1]).decode()]} | " + self.dump(m))
                 elif w[0] == "del":
                     del m[unhx(w[1]).decode()]
-                    obs.append("ok")
+                    obs.append("ok | " + self.dump(m))
                 elif w[0] == "iter":
                     obs.append("[" + ", ".join(str(v) for v in m.iter_match(unhx(w[1]).decode())) + "]")
                 elif w[0] == "tms":
@@ -101,7 +101,7 @@ class TrieStream:
                 else:
                     obs.append("bad-op")
             except KeyError:
-                obs.append("keyerror")
+                obs.append("keyerror | " + self.dump(m))
             except Exception as e:  # noqa: BLE001
                 obs.append("exc " + type(e).__name__)
         return obs
@@ -110,26 +110,33 @@ class TrieStream:
     def monitor_C11(self, case, obs):
         ref = {}
         hits = []
-        last_dump = None
+        dump = "=_"     # structural dump of the empty trie
         for i, (line, o) in enumerate(zip(case, obs)):
             w = line.split()
+            res, _, d = o.partition(" | ")
             if w[0] == "set":
                 ref[unhx(w[1]).decode()] = int(w[2])
-                last_dump = None
+                dump = d
             elif w[0] == "del":
                 k = unhx(w[1]).decode()
                 if k in ref:
-                    if o != "ok":
-                        hits.append((i, "del-stored", f"deleting stored filter {k!r} -> {o}"))
+                    if res != "ok":
+                        hits.append((i, "del-stored", f"deleting stored filter {k!r} -> {res}"))
                     del ref[k]
-                    last_dump = None
-                elif o != "keyerror":
-                    hits.append((i, "del-absent", f"deleting absent filter {k!r} -> {o}"))
+                    dump = d
+                else:
+                    # "deletions of filters that are not stored leave it unchanged"
+                    if d != dump:
+                        hits.append((i, "del-absent-changed", f"deleting absent filter {k!r} changed the trie: {dump} -> {d}"))
+                        dump = d
             elif w[0] == "get":
                 k = unhx(w[1]).decode()
                 exp = f"some {ref[k]}" if k in ref else "keyerror"
-                if o != exp:
-                    hits.append((i, "get", f"get {k!r}: got {o}, dictionary says {exp}"))
+                if res != exp:
+                    hits.append((i, "get", f"get {k!r}: got {res}, dictionary says {exp}"))
+                if d != dump:
+                    hits.append((i, "get-changed", f"lookup of {k!r} changed the trie"))
+                    dump = d
             elif w[0] == "iter":
                 t = unhx(w[1]).decode()
                 if all(wire.valid_filter(f.encode()) for f in ref) and "+" not in t and "#" not in t:
@@ -144,23 +151,13 @@ class TrieStream:
                     if o != exp:
                         hits.append((i, "tms", f"topic_matches_sub({f!r},{t!r}) -> {o}, spec says {exp}"))
             elif w[0] == "dump":
-                # "lookups or deletions of filters that are not stored leave it unchanged"
-                if last_dump is not None and o != last_dump:
-                    hits.append((i, "unchanged", "trie changed although only lookups / absent deletions happened"))
-                last_dump = o
-                # every leaf must hold content, contents must equal the dictionary
-                stored = {}
-                nodes = []
+                stored = []
                 for tok in o.split(" "):
                     p, _, c = tok.rpartition("=")
-                    nodes.append(p)
                     if c != "_":
-                        stored["/".join(unhx(x).decode() for x in p.split("/")) if p else ""] = int(c)
-                refk = {k: v for k, v in ref.items()}
-                if "" in refk:   # key "" is the single empty level under the root
-                    pass
-                if sorted(stored.values()) != sorted(refk.values()):
-                    hits.append((i, "contents", f"trie holds {stored}, dictionary holds {refk}"))
+                        stored.append(int(c))
+                if sorted(stored) != sorted(ref.values()):
+                    hits.append((i, "contents", f"trie holds values {sorted(stored)}, dictionary holds {sorted(ref.values())}"))
         return hits
 
     monitors = {"C11": monitor_C11}
@@ -177,6 +174,8 @@ class TrieStream:
                 f.add("iter-miss")
             if w[0] in ("del", "get"):
                 f.add(w[0] + "-" + o.split()[0])
+                if w[0] == "del" and o.startswith("ok"):
+                    f.add("del-ok")
             if w[0] == "tms":
                 f.add("tms-" + o)
             if w[0] == "iter" and unhx(w[1]).startswith(b"$"):
